@@ -9,7 +9,8 @@ package main
 // a port chosen by the OS, tls, the fd-passing pipe) and over a harness-owned stream whose Write is
 // a rendezvous point (two senders' Write calls are recorded alternately, so a frame written in two
 // calls is torn apart deterministically).  The receiving side is a real endpoint with a catch-all
-// handler (arrival order) and several filtering handlers.
+// handler (arrival order) and several filtering handlers.  Every header field the reader leaves free
+// varies (genHeaderFields).  c10start.go: endpoints built on connections whose peer has already written.
 
 import (
 	"bytes"
@@ -37,6 +38,7 @@ func init() {
 
 type c10Out struct {
 	Fails   []string       `json:"fails"`
+	KFails  [][2]string    `json:"kfails"` // kind, detail
 	Notes   []string       `json:"notes"`
 	Dist    map[string]int `json:"dist"`
 	Counts  []c10Count     `json:"counts"`
@@ -65,9 +67,56 @@ func c10Message(sender, seq, size int, typ uint8) net.Message {
 	return net.NewMessage(h, c10Payload(sender, seq, size))
 }
 
+// c10MessageX: every header field the reader accepts a free value for is free: the flags byte, the
+// eight message types, id / object / action anywhere in 0..2^32-1.  The sender stays recognisable in
+// the low byte of Service (the upper 24 bits are free too).
+func c10MessageX(sender int, sm sentMsg) net.Message {
+	h := net.NewHeader(sm.typ, uint32(sender)|sm.svcHi<<8, sm.object, sm.action, sm.id)
+	h.Flags = sm.flags
+	return net.NewMessage(h, c10Payload(sender, sm.seq, sm.size))
+}
+
+func c10Sender(h *net.Header) int { return int(h.Service & 0xff) }
+
 type sentMsg struct {
 	seq, size int
 	typ       uint8
+	flags     uint8
+	svcHi     uint32 // upper 24 bits of Service
+	object    uint32
+	action    uint32
+	id        uint32
+}
+
+var c10Extremes = []uint32{0, 1, 0x7fffffff, 0x80000000, 0xfffffffe, 0xffffffff, 0x42dead42, 0x00010000}
+
+// genHeaderFields fills the header fields of the seq-th message of a sender: mostly the plain values
+// (flags 0, object 7, action seq%4, id seq), and, for about a third of the messages each, non-zero
+// flags (every bit), extreme ids, objects, actions and service numbers; all eight types.
+func genHeaderFields(rng *hx.Rng, sm *sentMsg) {
+	sm.typ = uint8(rng.Pick(4, 5, 5, 1, 2, 1+rng.Intn(8)))
+	sm.object, sm.action, sm.id = 7, uint32(sm.seq%4), uint32(sm.seq)
+	if rng.Chance(0.4) {
+		sm.flags = uint8(rng.Pick(1, 2, 3, 0x80, 0xff, 1<<uint(rng.Intn(8)), 1+rng.Intn(255)))
+	}
+	ext := func() uint32 {
+		if rng.Chance(0.6) {
+			return c10Extremes[rng.Intn(len(c10Extremes))]
+		}
+		return uint32(rng.U64())
+	}
+	if rng.Chance(0.3) {
+		sm.id = ext()
+	}
+	if rng.Chance(0.2) {
+		sm.object = ext()
+	}
+	if rng.Chance(0.2) {
+		sm.action = ext()
+	}
+	if rng.Chance(0.2) {
+		sm.svcHi = ext() >> 8
+	}
 }
 
 func genSizes(rng *hx.Rng, n int, small bool) []sentMsg {
@@ -91,7 +140,8 @@ func genSizes(rng *hx.Rng, n int, small bool) []sentMsg {
 				sz = rng.Intn(200)
 			}
 		}
-		out[i] = sentMsg{seq: i + 1, size: sz, typ: uint8(rng.Pick(4, 5, 5, 1, 2))}
+		out[i] = sentMsg{seq: i + 1, size: sz}
+		genHeaderFields(rng, &out[i])
 	}
 	return out
 }
@@ -160,10 +210,55 @@ func (s *rvStream) Context() context.Context { return context.TODO() }
 // ---------- phase 1: rendezvous writer ----------
 
 func omsgTerm(m net.Message) string {
-	return fmt.Sprintf("(%d%%N, %d%%N, %d%%N, %d%%N, %d%%N, %s)", m.Header.Type, m.Header.Service, m.Header.Object, m.Header.Action, m.Header.ID, hx.Hex(m.Payload))
+	return fmt.Sprintf("(%d%%N, (%d%%N, %d%%N, %d%%N, %d%%N, %d%%N, %s))", m.Header.Flags, m.Header.Type, m.Header.Service, m.Header.Object, m.Header.Action, m.Header.ID, hx.Hex(m.Payload))
 }
 
-func scaseTerm(lists [][]net.Message, order []int, recv [][2]uint32, calls [][]byte) string {
+// hdrFieldsTerm: the fields of a received header, in the order of C10Run.hdr_fields
+func hdrFieldsTerm(h net.Header) string {
+	return hx.NList([]uint64{uint64(h.Magic), uint64(h.ID), uint64(h.Size), uint64(h.Version), uint64(h.Type), uint64(h.Flags),
+		uint64(h.Service), uint64(h.Object), uint64(h.Action)})
+}
+
+// headerDiff names the fields in which a received header differs from the one sent
+func headerDiff(got, sent net.Header) string {
+	var it []string
+	f := func(name string, a, b uint64) {
+		if a != b {
+			it = append(it, fmt.Sprintf("%s: sent %#x, received %#x", name, b, a))
+		}
+	}
+	f("Magic", uint64(got.Magic), uint64(sent.Magic))
+	f("ID", uint64(got.ID), uint64(sent.ID))
+	f("Size", uint64(got.Size), uint64(sent.Size))
+	f("Version", uint64(got.Version), uint64(sent.Version))
+	f("Type", uint64(got.Type), uint64(sent.Type))
+	f("Flags", uint64(got.Flags), uint64(sent.Flags))
+	f("Service", uint64(got.Service), uint64(sent.Service))
+	f("Object", uint64(got.Object), uint64(sent.Object))
+	f("Action", uint64(got.Action), uint64(sent.Action))
+	return strings.Join(it, "; ")
+}
+
+// hdrStr prints every field of a header (Header.String omits Flags, Version and Magic)
+func hdrStr(h net.Header) string {
+	return fmt.Sprintf("{Magic:%#x ID:%d Size:%d Version:%d Type:%d Flags:%#x Service:%d Object:%d Action:%d}", h.Magic, h.ID, h.Size, h.Version, h.Type, h.Flags, h.Service, h.Object, h.Action)
+}
+
+// notNext explains why a received message is not the next message of the sender named in its header
+func notNext(m net.Message, lists [][]net.Message, next []int) string {
+	s := c10Sender(&m.Header)
+	if s >= len(lists) || next[s] >= len(lists[s]) {
+		return fmt.Sprintf("received %s with %d payload bytes: no sender has such a message left to send", hdrStr(m.Header), len(m.Payload))
+	}
+	exp := lists[s][next[s]]
+	if d := headerDiff(m.Header, exp.Header); d != "" {
+		return fmt.Sprintf("received header %s differs from the header of message %d of sender %d, the next one of that sender, sent as %s, in {%s} (altered in transit, duplicated or out of order)",
+			hdrStr(m.Header), next[s]+1, s, hdrStr(exp.Header), d)
+	}
+	return fmt.Sprintf("received %s: the header is that of message %d of sender %d but the %d payload bytes differ from the %d sent", hdrStr(m.Header), next[s]+1, s, len(m.Payload), len(exp.Payload))
+}
+
+func scaseTerm(lists [][]net.Message, order []int, recv [][2]uint32, rhdr []net.Header, calls [][]byte) string {
 	ls := make([]string, len(lists))
 	for i, l := range lists {
 		it := make([]string, len(l))
@@ -180,8 +275,12 @@ func scaseTerm(lists [][]net.Message, order []int, recv [][2]uint32, calls [][]b
 	for i, c := range calls {
 		cs[i] = hx.Hex(c)
 	}
-	return fmt.Sprintf("{| sc_senders := %s; sc_order := %s; sc_recv := %s; sc_has_calls := %s; sc_calls := %s |}",
-		hx.List(ls), hx.NListInt(order), hx.List(rv), hx.Bool(calls != nil), hx.List(cs))
+	rh := make([]string, len(rhdr))
+	for i, h := range rhdr {
+		rh[i] = hdrFieldsTerm(h)
+	}
+	return fmt.Sprintf("{| sc_senders := %s; sc_order := %s; sc_recv := %s; sc_rhdr := %s; sc_has_calls := %s; sc_calls := %s |}",
+		hx.List(ls), hx.NListInt(order), hx.List(rv), hx.List(rh), hx.Bool(calls != nil), hx.List(cs))
 }
 
 func switches(order []int) int {
@@ -210,7 +309,7 @@ func phaseRendezvous(out *c10Out, rng *hx.Rng, runs int) {
 				if big {
 					sm.size = rng.Pick(66000, 70000, 131073, 200000)
 				}
-				lists[s] = append(lists[s], c10Message(s, sm.seq, sm.size, sm.typ))
+				lists[s] = append(lists[s], c10MessageX(s, sm))
 			}
 		}
 		var wg sync.WaitGroup
@@ -261,6 +360,7 @@ func phaseRendezvous(out *c10Out, rng *hx.Rng, runs int) {
 		rd := bytes.NewReader(bytes.Join(calls, nil))
 		var order []int
 		var recv [][2]uint32
+		var rhdr []net.Header
 		next := make([]int, nS)
 		ok := true
 		for rd.Len() > 0 {
@@ -270,23 +370,44 @@ func phaseRendezvous(out *c10Out, rng *hx.Rng, runs int) {
 				ok = false
 				break
 			}
-			s := int(m.Header.Service)
+			s := c10Sender(&m.Header)
 			if s >= nS || next[s] >= len(lists[s]) || !sameMessage(m, lists[s][next[s]]) {
-				out.Fails = append(out.Fails, fmt.Sprintf("%s: message %d of the byte stream (%v, %d payload bytes) is not the next message of any sender", desc, len(order), m.Header, len(m.Payload)))
+				out.Fails = append(out.Fails, fmt.Sprintf("%s: message %d decoded from the bytes the stream was given: %s", desc, len(order), notNext(m, lists, next)))
 				ok = false
 				break
 			}
 			next[s]++
 			order = append(order, s)
 			recv = append(recv, [2]uint32{uint32(s), m.Header.ID})
+			rhdr = append(rhdr, m.Header)
 		}
 		if ok && len(order) != nS*nM {
 			out.Fails = append(out.Fails, fmt.Sprintf("%s: %d of %d messages on the stream", desc, len(order), nS*nM))
 		}
 		out.Dist["transport:rendezvous"]++
+		distHeaders(out, lists)
 		out.Counts = append(out.Counts, c10Count{fmt.Sprintf("rv|%v|%v", order, recv), switches(order) >= nS})
 		if ok && !big {
-			out.SCases = append(out.SCases, [2]string{scaseTerm(lists, order, recv, calls), desc + fmt.Sprintf(" order=%v", order)})
+			out.SCases = append(out.SCases, [2]string{scaseTerm(lists, order, recv, rhdr, calls), desc + fmt.Sprintf(" order=%v", order)})
+		}
+	}
+}
+
+// distHeaders records which header fields of the messages sent take non-default values
+func distHeaders(out *c10Out, lists [][]net.Message) {
+	for _, l := range lists {
+		for _, m := range l {
+			h := m.Header
+			out.Dist[fmt.Sprintf("msg-type:%d", h.Type)]++
+			if h.Flags != 0 {
+				out.Dist["msg-flags:non-zero"]++
+			}
+			if h.ID == 0 || h.ID >= 1<<31 {
+				out.Dist["msg-id:0-or-above-2^31"]++
+			}
+			if h.Object >= 1<<31 || h.Action >= 1<<31 || h.Service >= 1<<31 {
+				out.Dist["msg-service/object/action:above-2^31"]++
+			}
 		}
 	}
 }
@@ -442,7 +563,7 @@ func runTransport(out *c10Out, rng *hx.Rng, tr transport, dir string, k int, nS,
 	bytesTotal := 0
 	for s := 0; s < nS; s++ {
 		for _, sm := range genSizes(rng, nM, small) {
-			lists[s] = append(lists[s], c10Message(s, sm.seq, sm.size, sm.typ))
+			lists[s] = append(lists[s], c10MessageX(s, sm))
 			bytesTotal += sm.size
 		}
 	}
@@ -451,8 +572,13 @@ func runTransport(out *c10Out, rng *hx.Rng, tr transport, dir string, k int, nS,
 		{name: "all", capq: total + 8, sel: func(n int, h *net.Header) (bool, bool) { return true, true }},
 		{name: "actions-0-2", capq: total + 8, sel: func(n int, h *net.Header) (bool, bool) { return h.Action == 0 || h.Action == 2, true }},
 		{name: fmt.Sprintf("after-%d", skipFirst), capq: total + 8, sel: func(n int, h *net.Header) (bool, bool) { return n >= skipFirst, true }},
-		{name: "sender-0-small-queue", capq: 3, slow: true, sel: func(n int, h *net.Header) (bool, bool) { return h.Service == 0 && h.Type != net.Call, true }},
+		{name: "sender-0-small-queue", capq: 3, slow: true, sel: func(n int, h *net.Header) (bool, bool) { return c10Sender(h) == 0 && h.Type != net.Call, true }},
 		{name: "first-only", capq: 1, sel: func(n int, h *net.Header) (bool, bool) { return true, false }},
+		{name: "flags-bit-0", capq: total + 8, sel: func(n int, h *net.Header) (bool, bool) { return h.Flags&1 != 0, true }},
+		{name: "types-reply-error-cancel", capq: total + 8, sel: func(n int, h *net.Header) (bool, bool) {
+			return h.Type == net.Reply || h.Type == net.Error || h.Type == net.Cancel || h.Type == net.Cancelled, true
+		}},
+		{name: "id-or-object-above-2^31", capq: total + 8, sel: func(n int, h *net.Header) (bool, bool) { return h.ID >= 1<<31 || h.Object >= 1<<31, true }},
 	}
 	fin := func(e net.EndPoint) {
 		for _, r := range hs {
@@ -539,6 +665,23 @@ func runTransport(out *c10Out, rng *hx.Rng, tr transport, dir string, k int, nS,
 	time.Sleep(3 * time.Millisecond) // let the other consumers drain
 	close(stop)
 	cwg.Wait()
+	// what still waits in a queue was handed to the handler as well (a loaded machine may not have
+	// scheduled every consumer within the 3 ms above)
+	for _, r := range hs {
+	drain:
+		for {
+			select {
+			case m, ok := <-r.q:
+				if !ok {
+					r.closed = true
+					break drain
+				}
+				r.got = append(r.got, m)
+			default:
+				break drain
+			}
+		}
+	}
 	for _, e := range sendErrs {
 		out.Fails = append(out.Fails, fmt.Sprintf("%s: Send failed: %s", desc, e))
 	}
@@ -550,23 +693,20 @@ func runTransport(out *c10Out, rng *hx.Rng, tr transport, dir string, k int, nS,
 	next := make([]int, nS)
 	var order []int
 	var recv [][2]uint32
+	var rhdr []net.Header
 	var arr []*net.Message
 	good := true
 	for i, m := range got {
-		s := int(m.Header.Service)
+		s := c10Sender(&m.Header)
 		if s >= nS || next[s] >= nM || !sameMessage(*m, lists[s][next[s]]) {
-			exp := "nothing"
-			if s < nS && next[s] < nM {
-				exp = fmt.Sprintf("%v with %d payload bytes", lists[s][next[s]].Header, len(lists[s][next[s]].Payload))
-			}
-			out.Fails = append(out.Fails, fmt.Sprintf("%s: message %d received is %v with %d payload bytes; the next message of that sender is %s (corrupted, duplicated or out of order)",
-				desc, i, m.Header, len(m.Payload), exp))
+			out.Fails = append(out.Fails, fmt.Sprintf("%s: message %d handed to the catch-all handler: %s", desc, i, notNext(*m, lists, next)))
 			good = false
 			break
 		}
 		next[s]++
 		order = append(order, s)
 		recv = append(recv, [2]uint32{uint32(s), m.Header.ID})
+		rhdr = append(rhdr, m.Header)
 		arr = append(arr, m)
 	}
 	if good && (len(got) != total || !okAll) {
@@ -612,13 +752,14 @@ func runTransport(out *c10Out, rng *hx.Rng, tr transport, dir string, k int, nS,
 	}
 	sw := switches(order)
 	out.Dist["transport:"+tr.name]++
+	distHeaders(out, lists)
 	out.Dist[fmt.Sprintf("senders:%d", nS)]++
 	out.Counts = append(out.Counts, c10Count{fmt.Sprintf("%s|%v", tr.name, recv), sw >= nS})
 	if len(out.Samples) < 6 && !forModel {
 		out.Samples = append(out.Samples, fmt.Sprintf("%s, %d payload bytes in total, received in %v with %d changes of sender in the arrival order", desc, bytesTotal, time.Since(t0).Round(time.Millisecond), sw))
 	}
 	if forModel && good {
-		out.SCases = append(out.SCases, [2]string{scaseTerm(lists, order, recv, nil), desc + fmt.Sprintf(" order=%v", order)})
+		out.SCases = append(out.SCases, [2]string{scaseTerm(lists, order, recv, rhdr, nil), desc + fmt.Sprintf(" order=%v", order)})
 	}
 }
 
@@ -653,14 +794,70 @@ func idList(ms []*net.Message) string {
 			it = append(it, fmt.Sprintf("... (%d)", len(ms)))
 			break
 		}
-		it = append(it, fmt.Sprintf("%d.%d", m.Header.Service, m.Header.ID))
+		it = append(it, fmt.Sprintf("%d.%d", c10Sender(&m.Header), m.Header.ID))
 	}
 	return "[" + strings.Join(it, " ") + "]"
 }
 
 // ---------- phase 3: dispatch scripts (sets of filters, many messages) ----------
 
+// genTableGrowthScript: more handlers than the table's initial 10 slots are registered at the same time
+// (the table grows), messages flow, most of the handlers of the initial slots are removed again (in a
+// random order, some twice), and messages flow for the handlers that remain.
+func genTableGrowthScript(rng *hx.Rng) c17script {
+	sc := c17script{Name: "dispatch-table-growth", Stream: rng.Chance(0.5)}
+	nH := 11 + rng.Intn(4)
+	for i := 0; i < nH; i++ {
+		f := genFilter(rng)
+		if i >= 10 || rng.Chance(0.3) {
+			f = fdesc{Kind: 0, Tab: []bb{{rng.Chance(0.8), true}, {true, true}, {rng.Chance(0.8), true}, {true, true}}}
+		}
+		sc.Ops = append(sc.Ops, sop{Kind: opMake, F: f, Cl: rng.Pick(0, 1), Cap: rng.Pick(2, 8, 40)})
+	}
+	id := uint32(100)
+	msgs := func(n int) {
+		for i := 0; i < n; i++ {
+			id++
+			sc.Ops = append(sc.Ops, sop{Kind: opMsg, M: mspec{Typ: uint32(rng.Pick(1, 2, 4, 5)), Service: uint32(rng.Intn(3)), Object: 1,
+				Action: uint32(rng.Intn(4)), ID: id, Payload: rng.Bytes(rng.Pick(0, 0, 2))}})
+			if rng.Chance(0.3) {
+				sc.Ops = append(sc.Ops, sop{Kind: opRecv, H: rng.Intn(nH)})
+			}
+		}
+	}
+	msgs(2 + rng.Intn(4))
+	// remove the handlers of slots 0..9 (all of them half of the time), in a random order
+	ids := []int{0, 1, 2, 3, 4, 5, 6, 7, 8, 9}
+	for i := len(ids) - 1; i > 0; i-- {
+		j := rng.Intn(i + 1)
+		ids[i], ids[j] = ids[j], ids[i]
+	}
+	if rng.Chance(0.5) {
+		ids = ids[:6+rng.Intn(4)]
+	}
+	for _, x := range ids {
+		sc.Ops = append(sc.Ops, sop{Kind: opRemove, ID: x})
+		if rng.Chance(0.15) {
+			msgs(1)
+		}
+		if rng.Chance(0.1) {
+			sc.Ops = append(sc.Ops, sop{Kind: opRemove, ID: x})
+		}
+	}
+	msgs(4 + rng.Intn(6))
+	if rng.Chance(0.5) { // the freed slots are taken again
+		for i := 0; i < 1+rng.Intn(3); i++ {
+			sc.Ops = append(sc.Ops, sop{Kind: opMake, F: genFilter(rng), Cl: 1, Cap: rng.Pick(1, 4)})
+		}
+		msgs(2 + rng.Intn(4))
+	}
+	return sc
+}
+
 func genDispatchScript(rng *hx.Rng) c17script {
+	if rng.Chance(0.1) {
+		return genTableGrowthScript(rng)
+	}
 	sc := c17script{Name: "dispatch", Stream: rng.Chance(0.5)}
 	nH := 2 + rng.Intn(4)
 	for i := 0; i < nH; i++ {
@@ -990,6 +1187,11 @@ func childC10(res *hx.Result, rng *hx.Rng, tier string, outdir string) {
 		save("transport " + tr.name + " (many senders)")
 		runTransport(out, rng, tr, outdir, k, 8+rng.Intn(8), 40, false, false)
 	}
+	save("start-up: the peer has written before the endpoint exists")
+	phaseStartUp(out, rng, outdir, 5*mult)
+	for i := 0; i < 3*mult; i++ {
+		busServerTalksFirst(out, rng, outdir, i, []string{"unix", "tcp"}[i%2])
+	}
 	save("dispatch scripts")
 	nD := 300 * mult
 	for i := 0; i < nD; i++ {
@@ -1030,8 +1232,11 @@ func childC10(res *hx.Result, rng *hx.Rng, tier string, outdir string) {
 func runC10(res *hx.Result, rng *hx.Rng, tier string, outdir string) {
 	res.Rule = "N goroutines (2..15) calling EndPoint.Send concurrently, message sizes 0..300 kB, over mem-pipe / unix / tcp (OS-chosen port) / tls / fd-passing pipe and over a " +
 		"harness stream whose Write alternates between goroutines; receiving endpoint with a catch-all handler (arrival order) and table / stateful / small-queue / one-shot filters; " +
-		"operation sequences with 2..6 handlers and 8..40 messages replayed on the model; non-trivial = the arrival order changes sender at least as often as there are senders, " +
-		"or a dispatch c17script has >= 2 handlers; distinct by sha256 of (transport, arrival order) or of the c17script text"
+		"every free header field varies (flags, 8 types, id/object/action/service at the extremes) and is compared field by field; " +
+		"start-up runs: the peer's first 1..6 messages already written before the endpoint is built by EndPointFinalizer (finalizer working 0..25 ms or sending first, 1..4 handlers), " +
+		"by NewEndPoint, or by a bus server's accept loop, on harness buffer / mem-pipe / unix / tcp / tls / fd-pipe; " +
+		"operation sequences with 2..6 handlers (one in ten: 11..14 handlers, then removals) and 8..40 messages replayed on the model; non-trivial = the arrival order changes sender at least as often as there are senders, " +
+		"a dispatch c17script has >= 2 handlers, or a start-up run has >= 2 handlers and >= 2 messages written ahead; distinct by sha256 of (transport, arrival order), of the c17script text or of the start-up description"
 	path := filepath.Join(outdir, "C10_child.json")
 	os.Remove(path)
 	cmd := exec.Command(os.Args[0], "--seed", fmt.Sprint(res.Seed), "--tier", tier, "--out", outdir, "C10.child")
@@ -1074,6 +1279,9 @@ func runC10(res *hx.Result, rng *hx.Rng, tier string, outdir string) {
 	}
 	for _, f := range out.Fails {
 		res.Fail("concurrent-senders", f)
+	}
+	for _, f := range out.KFails {
+		res.Fail(f[0], f[1])
 	}
 	res.Notes = append(res.Notes, out.Notes...)
 	keys := make([]string, 0, len(out.Dist))
